@@ -38,6 +38,12 @@ THEOREMS = [
     'Ndn.NameGen.all_translated', 'Ndn.NameGen.encoded_length_eq', 'Ndn.NameGen.is_prefix_core_eq',
     'Ndn.NameGen.encode_eq', 'Ndn.NameGen.encode_eq_empty', 'Ndn.NameGen.encode_into_eq', 'Ndn.NameGen.decode_eq', 'Ndn.NameGen.decode_error_class', 'Ndn.NameGen.decode_fuel_suffices',
     'Ndn.NameGen.decode_error_of_model', 'Ndn.NameGen.decode_ok_model', 'Ndn.NameGen.decode_ok_of_model',
+    # Name.decode(buf, offset) at EVERY offset >= 0 = Ndn.Name.decodeAt = decoding the suffix buf[offset:] (components, count
+    # and exception; offset >= len(buf): IndexError); negative offsets: below -len(buf) IndexError, and like the equivalent
+    # offset len(buf) + offset when the Name element ends strictly before the end of the buffer
+    'Ndn.decodeAt_eq_drop', 'Ndn.decodeAt_zero', 'Ndn.decodeAt_outside', 'Ndn.decodeAt_append',
+    'Ndn.NameGen.decode_at_eq', 'Ndn.NameGen.decode_at_drop', 'Ndn.NameGen.decode_at_suffix', 'Ndn.NameGen.decode_at_outside',
+    'Ndn.NameGen.decode_at_fuel_suffices', 'Ndn.NameGen.decode_below', 'Ndn.NameGen.decode_neg_ok',
 ]
 PARTIAL = {}
 TRUSTED = [
@@ -55,12 +61,24 @@ TRUSTED = [
     'from the source text by harness/py2lean.py (reduce(lambda) = a left fold, `for comp in name` = Py.forEach, the `while` '
     'loop of decode = recursion on a fuel argument whose bound `length + 1` is DECLARED by the request and proved never to '
     'be exhausted) and proved equal to Ndn.Name.* for all inputs (encode: fresh buffer, empty buffer passed, and into a '
-    'caller-supplied buffer at an offset; decode at offset 0: plain equality with Ndn.Name.decode, the IndexError of a component '
-    'that overruns the declared Length included); '
+    'caller-supplied buffer at an offset >= 0; decode at EVERY offset >= 0: plain equality with Ndn.Name.decodeAt, which is '
+    'Ndn.Name.decode of the suffix buf[offset:] - the IndexError of a component that overruns the declared Length and of an '
+    'offset at or past the end of the buffer included); '
     'trusted there, besides the translator and PySem.lean: '
     'that a FormalName argument is a list of byte strings which the call does not change meanwhile, and - declared by the '
     'request, stated in the generated file - that Name.normalize returns an equal list on an argument that already is a '
     'list of byte strings (is_prefix is translated for such arguments only)',
+    'C09 (NEGATIVE offsets of Name.decode; encode into a buffer at a negative offset is not covered at all): proved of the '
+    'translated source - offset < -len(buf) raises IndexError (decode_below); for -len(buf) <= -k < 0, when decoding at the '
+    'equivalent offset len(buf) - k succeeds and the Name element ends STRICTLY before the end of the buffer, decode(buf, -k) '
+    'returns the same components and count (decode_neg_ok).  Everything else about negative offsets is OUTSIDE the '
+    'theorems and the model, and the stream only observes it: parse_tl_num indexes buf[offset] from the end, but a bound that '
+    'has reached 0 is not normalised, so when the element ends exactly WITH the buffer the last component is the empty slice '
+    'buf[st:0] (Name.decode(b"\\x07\\x02\\x08\\x00", -4) == ([b""], 4): no exception, wrong components), multi-byte TL numbers '
+    'ending with the buffer raise struct.error, an offset that reaches 0 continues reading at the START of the buffer '
+    '(Name.decode(b"\\x02\\x08\\x00\\x07", -1) == ([b"\\x08\\x00"], 4)), and the test length > len(buf) - offset is weaker by '
+    '|offset|; both calls are closed `example`s about the translated source in NameGen.lean.  The annotated contract '
+    '(offset: int = 0, callers pass positions >= 0) is read as offset >= 0',
     'C09: lean/NdnGen/C09.lean is regenerated on every run by harness/props/c09_extract.py from Component.py, Name.py and tlv_var.py (live constants of the imported modules, ast shapes, live probes of the range checks and of the TL-number / pack_uint_bytes ladders at the integer constants of their source); the name model READS the character set and the two shorthand tables from it, every other literal of the model is pinned to it by the *_table theorems (closed by evaluation). Trusted: the extractor (an unrecognised shape is emitted as false/unknown and fails tables_recognised), and that a step function is constant between the probed constants of its source',
 ]
 RULE = ('names of 0..8 components, types from {1,2,8,32,50,52,54,56,58,252,253,65535,random 1..65535}, value bytes weighted to '
@@ -76,7 +94,11 @@ RULE = ('names of 0..8 components, types from {1,2,8,32,50,52,54,56,58,252,253,6
         'front-ends of the same conversions (to_bytes/from_bytes, decode/encode at a non-zero offset, encoded_length, '
         'normalize of tuple/generator/bytes+bytearray+memoryview+str lists, non-strict arguments of to_str/'
         'to_canonical_uri/is_prefix, lower-case percent escapes, upper-case digests, the five typed-number constructors '
-        'and shorthands). non-trivial = at least one component / an accepted URI / '
+        'and shorthands); Name.decode(buf, offset) on generated / damaged / overrunning Name wires embedded between 0..6 and 0..5 '
+        'other bytes, offset in {0, 1, k, k+1, k+size, len-1, len, len+1} compared with the model of the suffix and judged by an '
+        'independent reader (same components as the suffix, count = size of the Name element, IndexError at or past the end), '
+        'and in {-1, -2, -(len-k), -(len-k)+-1, -len, -len+1, -len-1} judged where a theorem speaks (IndexError below -len; equal '
+        'to the equivalent offset when the element ends before the end of the buffer). non-trivial = at least one component / an accepted URI / '
         'a pair that is not identical; distinct = distinct cases')
 
 NUM_TYPES = (50, 52, 54, 56, 58)
@@ -166,6 +188,8 @@ def _exec_inner(op, keep):
             v = Name.encode(_unnm(a[1])); keep.append(v); return 'ok=' + _hx(v), bytes(v)
         if k == 'dec':
             v, n = Name.decode(_unhx(a[1])); keep.append(v); return 'ok=%s@%d' % (_nm(v), n), ([bytes(c) for c in v], n)
+        if k == 'deco':                                   # Name.decode(buf, offset), 0 <= offset (model: the suffix, see _model_op)
+            v, n = Name.decode(_unhx(a[1]), int(a[2])); keep.append(v); return 'ok=%s@%d' % (_nm(v), n), ([bytes(c) for c in v], n)
         if k == 'nrm':
             l = [] if a[1] == '.' else [(_untx(e[1:]) if e[0] == 's' else _unhx(e[1:])) for e in a[1].split(',')]
             v = Name.normalize(l); keep.append(v); return 'ok=' + _nm(v), [bytes(c) for c in v]
@@ -397,6 +421,27 @@ def _wire(rng):
     return bytes(w).hex()
 
 
+def _wire_of(comps):
+    body = b''.join(_gen_comp(t, bytes.fromhex(v)) for t, v in comps)
+    return (b'\x07' + _gen_tl(len(body)) + body).hex()
+
+
+def _junk(rng, lo, hi):
+    """bytes around an embedded Name: anything, weighted to bytes that look like TLV headers"""
+    return bytes(rng.choice([7, 8, 0, 1, 2, 0xfd, 0xfe, 0xff, rng.randrange(256)]) for _ in range(rng.randint(lo, hi))).hex()
+
+
+def _at_offsets(npre, nw, n):
+    """the offsets asked of Name.decode(buf, offset) for a Name of nw bytes at npre in a buffer of n bytes"""
+    k = npre
+    offs = [0, 1, k, k + 1, n - 1, n, n + 1, -1, -(n - k), -(n - k) - 1, -(n - k) + 1, -n, -n - 1, -n + 1, k + nw, -2]
+    out = []
+    for o in offs:
+        if o not in out:
+            out.append(o)
+    return out
+
+
 def _overrun_wire(rng, mode=None):
     """a Name TLV whose Length ends strictly inside one of its components (after 0..3 whole ones); the overrunning
     component lies wholly inside the buffer (more bytes follow the declared Length), is cut by the end of the buffer,
@@ -514,6 +559,18 @@ def cases(rng, tier):
     yield {'k': 'wire', 'w': '07030801610802'}           # Length 3: one whole component, then one byte of the next
     for _ in range(40 * k):
         yield {'k': 'wire', 'w': _overrun_wire(rng)}
+    # Name.decode(buf, offset): generated (well-formed, damaged, overrunning) Name wires embedded in larger buffers
+    yield {'k': 'at', 'pre': '', 'w': '07020800', 'post': ''}
+    yield {'k': 'at', 'pre': 'aa', 'w': '07020800', 'post': ''}
+    yield {'k': 'at', 'pre': 'aa', 'w': '07020800', 'post': 'bb'}
+    yield {'k': 'at', 'pre': '020800', 'w': '0700', 'post': '07'}
+    yield {'k': 'at', 'pre': '07', 'w': '07fd00020800', 'post': ''}
+    for _ in range(40 * k):
+        r = rng.random()
+        w = _wire(rng) if r < 0.75 else _overrun_wire(rng)
+        if r < 0.45:
+            w = (b'\x07' + _gen_tl(0) + b'').hex() if r < 0.03 else _wire_of(_name(rng, 0, 4))
+        yield {'k': 'at', 'pre': _junk(rng, 0, 6), 'w': w, 'post': _junk(rng, 0, 5)}
     for _ in range(6 * k):
         base = _name(rng, 0, 4)
         pool = [base] + [_mutate_name(rng, base) for _ in range(9)]
@@ -552,6 +609,13 @@ def shrink(case):
         w = case['w']
         for i in range(0, len(w), 2):
             yield {'k': 'wire', 'w': w[:i] + w[i + 2:]}
+    elif k == 'at':
+        for f in ('pre', 'post', 'w'):
+            h = case[f]
+            for i in range(0, len(h), 2):
+                c2 = dict(case)
+                c2[f] = h[:i] + h[i + 2:]
+                yield c2
     elif k == 'pool':
         ns = case['names']
         for i in range(len(ns)):
@@ -839,12 +903,40 @@ def run_impl(case):
         if r is not None:
             R.do('enc:' + _nm(r[0]), 'enc')
         return R.out()
+    if k == 'at':
+        pre, w, post = bytes.fromhex(case['pre']), bytes.fromhex(case['w']), bytes.fromhex(case['post'])
+        buf = pre + w + post
+        Name, Component = _imports()
+        for o in _at_offsets(len(pre), len(w), len(buf)):
+            if o >= 0:
+                R.do('deco:%s:%d' % (_hx(buf), o), 'at%d' % o)
+            else:       # negative offsets are outside the model (TRUSTED): observed, judged only where a theorem speaks
+                def neg(o=o):
+                    v, n = Name.decode(bytes(buf), o)
+                    return 'ok=%s@%d' % (_nm(v), n)
+                R.side('at%d' % o, neg)
+        def sfx():
+            v, n = Name.decode(bytes(buf[len(pre):]))
+            return 'ok=%s@%d' % (_nm(v), n)
+        R.side('sfx', sfx)
+        return R.out(buf=_hx(buf))
     raise RuntimeError('unknown case kind')
 
 
 # ------------------------------------------------------------------------------------------ model
+def _model_op(op):
+    """`deco:<buf>:<off>` (Name.decode(buf, off), 0 <= off) is asked of the model as `dec:<buf[off:]>`: theorems
+    Ndn.NameGen.decode_at_eq (the translated source at an offset = Ndn.Name.decodeAt) and Ndn.decodeAt_eq_drop (decoding at
+    an offset = decoding the suffix: same components, same count, same exception; an offset past the end = the empty
+    string); every other op goes as it is"""
+    if op.startswith('deco:'):
+        _, h, o = op.split(':')
+        return 'dec:' + _hx(_unhx(h)[int(o):])
+    return op
+
+
 def model_line(case, impl):
-    return 'C09 ' + ' '.join(impl['ops']) if impl['ops'] else None
+    return 'C09 ' + ' '.join(_model_op(op) for op in impl['ops']) if impl['ops'] else None
 
 
 def model_obs(answer, case, impl):
@@ -1152,6 +1244,78 @@ def oracle(case, impl):
         return None
     if k == 'wire':
         return _wire_oracle(bytes.fromhex(case['w']), L)
+    if k == 'at':
+        return _at_oracle(case, L, impl.get('side', {}))
+    return None
+
+
+def _at_one(suffix, tok):
+    """Name.decode(buf, off) for 0 <= off against the bytes of the suffix buf[off:], read independently of the library"""
+    if not suffix:
+        return None if tok == 'err=IndexError' else 'does not raise IndexError at an offset at or past the end of the buffer'
+    shape = _wire_shape(suffix)
+    if shape[0] == 'overrun':
+        return None if tok == 'err=IndexError' else 'does not raise IndexError on a Name whose Length ends inside a component'
+    if not _ok(tok):
+        if shape[0] == 'name' and shape[1] + shape[2] <= len(suffix) and _tiles(suffix[shape[1]:shape[1] + shape[2]]):
+            return 'rejects a Name element made of whole components that lies inside the buffer'
+        return None
+    if shape[0] != 'name':
+        return 'accepts bytes that do not start with a readable Name Type and Length'
+    names, used = tok[3:].rsplit('@', 1)
+    comps = [bytes(c) for c in _unnm(names)]
+    hdr, ln = shape[1], shape[2]
+    if int(used) != hdr + ln:
+        return 'bytes consumed != size of the Name element (header + declared Length)'
+    if hdr + ln > len(suffix):
+        return 'accepts a Name whose Length runs past the buffer'
+    if b''.join(comps) != suffix[hdr:hdr + ln]:
+        return 'the components joined are not the Value bytes of the Name element at the offset'
+    for c in comps:
+        ct = _rd_tl(c, 0)
+        cl = _rd_tl(c, ct[1]) if ct is not None else None
+        if cl is None or ct[1] + cl[1] + cl[0] != len(c):
+            return 'returns a component that is not one whole TLV'
+    return None
+
+
+def _tiles(body):
+    off = 0
+    while off < len(body):
+        ct = _rd_tl(body, off)
+        cl = _rd_tl(body, off + ct[1]) if ct is not None else None
+        if cl is None or off + ct[1] + cl[1] + cl[0] > len(body):
+            return False
+        off += ct[1] + cl[1] + cl[0]
+    return True
+
+
+def _at_oracle(case, L, D):
+    pre, w, post = bytes.fromhex(case['pre']), bytes.fromhex(case['w']), bytes.fromhex(case['post'])
+    buf = pre + w + post
+    n = len(buf)
+    for o in _at_offsets(len(pre), len(w), n):
+        if o >= 0:
+            tok = L.get('at%d' % o)
+            r = _at_one(buf[o:], tok)
+            if r:
+                return 'Name.decode(buf, %s): %s' % ('len(pre)' if o == len(pre) else 'offset >= 0', r)
+            # decoding at an offset = decoding the suffix as a buffer of its own (what theorem decode_at_suffix says of the
+            # source, observed on the implementation with an independent call)
+            if o == len(pre) and tok != D.get('sfx'):
+                return 'Name.decode(buf, len(pre)) differs from Name.decode(buf[len(pre):])'
+        else:
+            tok = D.get('at%d' % o)
+            if o < -n:
+                # theorem Ndn.NameGen.decode_below: buf[offset] raises IndexError
+                if tok != 'err=IndexError':
+                    return 'Name.decode(buf, offset < -len(buf)) does not raise IndexError'
+                continue
+            # -n <= o < 0.  Outside the model except (theorem Ndn.NameGen.decode_neg_ok) when decoding at the equivalent
+            # offset n + o succeeds and ends STRICTLY before the end of the buffer: then the negative offset gives the same
+            pos = L.get('at%d' % (n + o))
+            if pos is not None and _ok(pos) and int(pos.rsplit('@', 1)[1]) < -o and tok != pos:
+                return 'Name.decode(buf, -k) differs from Name.decode(buf, len(buf) - k) although the Name ends before the end of the buffer'
     return None
 
 
@@ -1165,6 +1329,8 @@ def nontrivial(case, impl):
         return _ok(impl['lab'].get('fs')) or _ok(impl['lab'].get('nfs'))
     if k == 'wire':
         return _ok(impl['lab'].get('dec'))
+    if k == 'at':
+        return any(_ok(v) for v in impl['lab'].values())
     return True
 
 
@@ -1188,6 +1354,14 @@ def tags(case, impl):
         shape = _wire_shape(bytes.fromhex(case['w']))
         if shape[0] == 'overrun':
             t.append('component-overruns-name-length:' + shape[1])
+    elif k == 'at':
+        for lab, tok in list(L.items()) + list(impl.get('side', {}).items()):
+            if not lab.startswith('at'):
+                continue
+            o = int(lab[2:])
+            tg = 'decode-at:%s:%s' % ('neg' if o < 0 else 'zero' if o == 0 else 'pos', tok[:2] if _ok(tok) else tok)
+            if tg not in t:
+                t.append(tg)
     elif k == 'pair':
         t.append('prefix:' + L.get('pre_ab', '?')[3:] + L.get('pre_ba', '?')[3:])
     elif k == 'num':
